@@ -142,6 +142,11 @@ func (g *gen) part(richness, pInvalid int, allowBad bool) *Part {
 	}
 	if g.pct(richness / 3) {
 		for i, k := 0, g.in(1, 3); i < k; i++ {
+			p.Sh = append(p.Sh, fmt.Sprintf("sh%d-%d", n, i))
+		}
+	}
+	if g.pct(richness / 3) {
+		for i, k := 0, g.in(1, 3); i < k; i++ {
 			p.KP = append(p.KP, fmt.Sprintf("%s%d", words[g.r.IntN(len(words))], n))
 		}
 	}
